@@ -5,7 +5,7 @@ from ..harness import Job, finding, model_of
 
 ID = 'C14'
 PROFILES = ['dev']
-BOUNDS = {'value kinds': 'all six, kind symbolic', 'numbers': 'all 2^64 doubles', 'booleans': 'both', 'sharing': 'eq-shared jobs: the equality / ordering laws on a value and a copy of itself (shared Rc storage)', 'strings': 'all strings (opaque z3 sequence; parse::<f64> uninterpreted but functional) and, in the *-short-strings jobs, every string of <= 2 characters over {1, space, x, -, .} with real number parsing',
+BOUNDS = {'value kinds': 'all six, kind symbolic', 'numbers': 'all 2^64 doubles', 'booleans': 'both', 'sharing': 'eq-shared jobs: the equality / ordering laws on a value and a copy of itself (shared Rc storage)', 'strings': 'all strings (opaque z3 sequence; parse::<f64> uninterpreted but functional) and, in the *-short-strings jobs, every string of <= 2 characters over {1, space, x, X, -, .} with real number parsing',
           'arrays': 'sequence length 0..=2 (thorough: 0..=3), elements lazily symbolic scalars (depth 1), dictionary part 0..=1 entries',
           'inc/dec': 'n in {1,2,3,16,2^20} (thorough: 1..=16, 1000, 2^20), x any integral double with |x| + n <= 2^53, and both booleans (a symbolic 64-bit n makes the FP query exceed 240 s in z3: measured)'}
 OUTSIDE = ['arrays longer than the bound or nested deeper than 1', 'dictionaries with more than one entry',
@@ -18,7 +18,7 @@ ASSUMPTIONS = ['std models of DESIGN.md §2.4 (Option/Result/Cow/Rc/iterators/Ha
 RULE = 'state = feasible path end of a law harness over two lazily symbolic values (distinct kind/shape/branch decisions); every path end discharges pc ∧ ¬law with z3'
 
 
-NUMERIC_ALPHA = [0x31, 0x20, 0x78, 0x2D, 0x2E]      # '1', ' ', 'x', '-', '.'
+NUMERIC_ALPHA = [0x31, 0x20, 0x78, 0x58, 0x2D, 0x2E]      # '1', ' ', 'x', 'X', '-', '.'  (x / X: texts that differ only in letter case)
 
 
 def short_numeric_string(vm, name):
@@ -75,6 +75,19 @@ def h_eq(vm, mir, ka):
     return [x for x in out if x]
 
 
+def unshared_copy(vm, v):
+    """structurally identical value in fresh storage (every Rc re-boxed; payload terms shared): what a program gets by building
+    the same value a second time"""
+    from ..values import RcVal, RcBox, HList, HMap
+    from ..std import conc
+    if isinstance(v, RcVal): return RcVal(RcBox(unshared_copy(vm, v.box.cell.v)), v.kind)
+    if isinstance(v, SymEnum): v = conc(vm, v)
+    if isinstance(v, Adt): return Adt(v.ty, v.variant, [unshared_copy(vm, x) for x in v.fields])
+    if isinstance(v, HList): return HList([unshared_copy(vm, x) for x in v.items])
+    if isinstance(v, HMap): return HMap([[unshared_copy(vm, a), unshared_copy(vm, b)] for a, b in v.entries], v.sorted, v.order_tag)
+    return v
+
+
 def h_eq_shared(vm, mir, ka):
     """the laws on a value and a *copy of itself* (derived Clone: strings and arrays share their Rc storage, as after
     `let y be x` or for `x is x`): equality must not depend on whether two values happen to share storage"""
@@ -85,6 +98,11 @@ def h_eq_shared(vm, mir, ka):
     b1, b3 = result_bool(vm, r1), result_bool(vm, r3)
     if b1 is None or b3 is None: out.append(finding('violation', 'eq-total', 'equality of a value with its copy returned an error', vm.describe(model_of(vm)), vm.notes)); return out
     sh = lambda m: {'shared': True}
+    # the verdict must not depend on whether the two operands share storage: same answer against an identical value built separately
+    a2 = unshared_copy(vm, a)
+    r5, _ = fold_op(vm, mir, BINOPS.index('Eq'), a, [a2]); b5 = result_bool(vm, r5)
+    if b5 is None: out.append(finding('violation', 'eq-total', 'equality of a value with an identical value returned an error', vm.describe(model_of(vm)), vm.notes)); return out
+    out.append(law_failed(vm, 'eq-independent-of-sharing', as_bool_term(b5) == as_bool_term(b1), a, a, sh))
     out.append(law_failed(vm, 'noteq-is-negation', as_bool_term(b3) == z3.Not(as_bool_term(b1)), a, a, sh))
     e = vm.run_fn(fn(mir, 'Val', 'equals'), [R(vm.clone_val(a)), R(vm.clone_val(a))])
     out.append(law_failed(vm, 'operator-eq-is-equals', as_bool_term(e) == as_bool_term(b1), a, a, sh))
@@ -387,6 +405,7 @@ def replay(ctx, f):
         def B(op, x, y): return native_bool(nat, op, x, y, cex.get('shared'))[0]
         if law == 'eq-symmetric': viol = B('Eq', a, b) != B('Eq', b, a)
         elif law == 'noteq-is-negation': viol = B('NotEq', a, b) != (not B('Eq', a, b))
+        elif law == 'eq-independent-of-sharing': viol = native_bool(nat, 'Eq', a, b, True)[0] != native_bool(nat, 'Eq', a, b, False)[0]
         elif law == 'operator-eq-is-equals': viol = B('Eq', a, b) != nat.call({'op': 'val', 'fn': 'equals', 'a': a, 'b': b}).get('bool')
         elif '-mirrors-' in law:
             lt, gt = law.split('-mirrors-'); viol = B(lt, a, b) != B(gt, b, a)
